@@ -188,6 +188,24 @@ def check(ctx):
         ctx.ok('C11.2', ctx.site(j), 'every explicit failure exit is Err(InvalidShares) (%d)' % len(errs))
     else:
         ctx.fail('C11.2', ctx.site(j), 'a failure exit is not InvalidShares: %s' % [fmt(t) for bi, si, t in errs if not is_invalid(t)], key='C11.2|errkind')
+    # every identifier group is actually tried: inside the group loop the combine call cannot be skipped
+    loops = []
+    for sb2, dt2 in switch_on(jtb, j, lambda dd: dd[0] == 'discr' and dd[1][0] == 'next'):
+        for val, bb in j.term(sb2)['targets']:
+            if val == 1:
+                loops.append((sb2, bb))
+    skipped = False
+    for sb2, some_t in loops:
+        if comb[0][0] not in j.reachable(some_t):
+            continue
+        reach_wo = j.reachable(some_t, removed_blocks=[comb[0][0]])
+        rets = [i for i in j.normal_blocks() if (j.term(i) or {}).get('k') == 'return']
+        if sb2 in reach_wo or any(r in reach_wo for r in rets):
+            skipped = True
+    if skipped:
+        ctx.fail('C11.2', ctx.site(j, comb[0][0]), 'an identifier group can be skipped without attempting sskr_combine (a pre-check decides instead of the combination): a valid quorum may be refused', key='C11.2|skip')
+    elif loops:
+        ctx.ok('C11.2', ctx.site(j, comb[0][0]), 'sskr_combine is attempted for every identifier group (no path through the loop body avoids it)')
     # a failing group must fall through to the next group: no exit (Err or `?`) between combine and loop continuation
     loop_exits = []
     creach = j.reachable(comb[0][0])
